@@ -1,7 +1,8 @@
 //! C14 — mean, variance, covariance, softmax, F1.  See lean/Driver/C14.lean for the protocol.
 //! Operand definitions (`t`, `v`, `m`, `w` lines) are shared with C03.
 
-use crate::c03::{run_fp, run_rat, Elem};
+use crate::c03::{run_fp, run_rat, run_trace, Elem};
+use easy_ml::differentiation::{Record, Trace, WengertList};
 use crate::exact::{Fp, Rat, P};
 use crate::util::*;
 use easy_ml::linear_algebra;
@@ -321,6 +322,167 @@ fn gen_softmax(g: &mut Gen) {
     }
 }
 
+/// Element-type axis: every statistic over `Trace<Fp>` (forward mode) and `Record<Fp>` (reverse
+/// mode) elements, with constants and variables mixed in every order (constants first, last,
+/// interleaved, random, all constants, all variables; a constant as the maximum for softmax).
+/// Value and (directional) derivative must equal the model evaluated at dual numbers.
+fn gen_ad_elements(g: &mut Gen) {
+    const PATTERNS: [&str; 6] = ["const_first", "const_last", "interleaved", "random", "all_const", "all_var"];
+    fn elems(g: &mut Gen, n: usize, pattern: &str) -> Vec<String> {
+        let k = if n <= 1 { n } else { g.rng.range(1, n - 1) };
+        (0..n)
+            .map(|i| {
+                let v = 1 + g.rng.next() % (P - 1);
+                let constant = match pattern {
+                    "const_first" => i < k,
+                    "const_last" => i >= n - k,
+                    "interleaved" => i % 2 == 0,
+                    "random" => g.rng.chance(1, 2),
+                    "all_const" => true,
+                    _ => false,
+                };
+                if constant { v.to_string() } else { format!("{}~{}", v, 1 + g.rng.next() % (P - 1)) }
+            })
+            .collect()
+    }
+    for ety in ["record", "trace"] {
+        let list_via = |g: &mut Gen, n: usize| -> &'static str {
+            if ety == "record" { ["into_iter", "cloned", "filter"][g.rng.below(3)] } else { pick_list_via(g, n) }
+        };
+        g.op(format!("@ {}", ety));
+        for n in 1..=(if g.thorough { 8 } else { 5 }) {
+            for pattern in PATTERNS {
+                let v = elems(g, n, pattern).join(",");
+                let via = list_via(g, n);
+                g.op(format!("mean {} via={}", v, via));
+                let via = list_via(g, n);
+                g.op(format!("variance {} via={}", v, via));
+                let via = list_via(g, n);
+                g.op(format!("softmax {} via={}", v, via));
+                g.count(&format!("ad.{}.list.{}", ety, pattern));
+            }
+            // softmax with a constant as the maximum (and as the minimum)
+            for which in ["max", "min"] {
+                let mut vals: Vec<Fp> = (0..n).map(|_| Fp::new(g.rng.next() % P)).collect();
+                vals.sort_by(|a, b| a.partial_cmp(b).unwrap());
+                let target = if which == "max" { n - 1 } else { 0 };
+                let mut toks: Vec<String> = vals.iter().enumerate().map(|(i, v)| if i == target { v.0.to_string() } else { format!("{}~{}", v.0, 1 + g.rng.next() % (P - 1)) }).collect();
+                g.rng.shuffle(&mut toks);
+                let via = list_via(g, n);
+                g.op(format!("softmax {} via={}", toks.join(","), via));
+                g.count(&format!("ad.{}.softmax.constant_is_{}", ety, which));
+            }
+        }
+        g.op("mean - via=into_iter".to_string());
+        g.op("softmax - via=cloned".to_string());
+        for (p, r) in [(true, false), (false, true), (false, false), (true, true)] {
+            let e = |g: &mut Gen, c: bool| { let v = 1 + g.rng.next() % (P - 1); if c { v.to_string() } else { format!("{}~{}", v, 1 + g.rng.next() % (P - 1)) } };
+            let (a, b) = (e(g, p), e(g, r));
+            g.op(format!("f1 {} {}", a, b));
+        }
+        // covariance: non-square data, constants in every arrangement, every entry point
+        for (samples, features) in [(1usize, 1usize), (2, 3), (3, 2), (4, 3), (5, 2), (3, 4)] {
+            for pattern in PATTERNS {
+                if !g.thorough && pattern == "all_const" && samples > 2 {
+                    continue;
+                }
+                g.op(format!("@ {}", ety));
+                let data = elems(g, samples * features, pattern);
+                let mut tr = vec![];
+                for f in 0..features {
+                    for s_i in 0..samples {
+                        tr.push(data[s_i * features + f].clone());
+                    }
+                }
+                g.op(format!("m M {} {} {}", samples, features, data.join(",")));
+                g.op(format!("m MT {} {} {}", features, samples, tr.join(",")));
+                for via in ["fn", "method"] {
+                    g.op(format!("covcol M via={}", via));
+                    g.op(format!("covrow MT via={}", via));
+                }
+                g.op("covrow M via=method".to_string());
+                g.op("covcol MT via=fn".to_string());
+                g.op(format!("t T s:{},f:{} {}", samples, features, data.join(",")));
+                g.op(format!("t TT f:{},s:{} {}", features, samples, tr.join(",")));
+                g.op("v A T access f,s".to_string());
+                g.op("v B TT access s,f".to_string());
+                let plain: &[&str] = if ety == "record" { &["fn-t", "fn-rt", "fn-v", "m-t", "m-v"] } else { &COVT_VIAS_PLAIN };
+                let acc: &[&str] = if ety == "record" { &["fn-av", "m-av"] } else { &COVT_VIAS_ACCESS };
+                for (i, name) in ["T", "TT"].iter().enumerate() {
+                    for feature in ["f", "s"] {
+                        let via = plain[(g.rng.below(plain.len()) + i) % plain.len()];
+                        g.op(format!("covt {} {} via={}", name, feature, via));
+                    }
+                }
+                for name in ["A", "B"] {
+                    for feature in ["f", "s"] {
+                        let via = acc[g.rng.below(acc.len())];
+                        g.op(format!("covt {} {} via={}", name, feature, via));
+                    }
+                }
+                g.op("covt T zz via=fn-rt".to_string());
+                g.count(&format!("ad.{}.cov.{}", ety, pattern));
+            }
+        }
+    }
+}
+
+/// API-surface scan: every `pub fn` of linear_algebra.rs in C14's scope and every method wrapper of
+/// one of them on Matrix / MatrixView / Tensor / TensorView must be driven by this generator;
+/// an undriven one is reported as `surface.UNDRIVEN.<name>` in the input-distribution table.
+fn scan_surface(g: &mut Gen) {
+    let repo = std::env::var("EASYML_REPO").unwrap_or_else(|_| "/repo".to_string());
+    // entry point -> the `via=` / op that drives it
+    let driven: [(&str, &str); 11] = [
+        ("linear_algebra::mean", "mean"),
+        ("linear_algebra::variance", "variance"),
+        ("linear_algebra::softmax", "softmax"),
+        ("linear_algebra::f1_score", "f1"),
+        ("linear_algebra::covariance_column_features", "covcol via=fn"),
+        ("linear_algebra::covariance_row_features", "covrow via=fn"),
+        ("linear_algebra::covariance", "covt via=fn-*"),
+        ("matrices/mod.rs::covariance_column_features", "covcol via=method"),
+        ("matrices/mod.rs::covariance_row_features", "covrow via=method"),
+        ("tensors/mod.rs::covariance", "covt via=m-t"),
+        ("tensors/views.rs::covariance", "covt via=m-v / m-bv / m-av"),
+    ];
+    let in_scope = |name: &str| name == "mean" || name == "variance" || name == "softmax" || name == "f1_score" || name.starts_with("covariance");
+    let mut found: Vec<String> = vec![];
+    for (file, prefix) in [
+        ("src/linear_algebra.rs", "linear_algebra"),
+        ("src/matrices/mod.rs", "matrices/mod.rs"),
+        ("src/matrices/views.rs", "matrices/views.rs"),
+        ("src/tensors/mod.rs", "tensors/mod.rs"),
+        ("src/tensors/views.rs", "tensors/views.rs"),
+    ] {
+        let text = match std::fs::read_to_string(format!("{}/{}", repo, file)) {
+            Ok(t) => t,
+            Err(_) => { g.count(&format!("surface.unreadable.{}", prefix)); continue; }
+        };
+        for line in text.lines() {
+            let l = line.trim_start();
+            if let Some(rest) = l.strip_prefix("pub fn ") {
+                let name: String = rest.chars().take_while(|c| c.is_alphanumeric() || *c == '_').collect();
+                if in_scope(&name) {
+                    found.push(format!("{}::{}", prefix, name));
+                }
+            }
+        }
+    }
+    for f in &found {
+        if driven.iter().any(|(d, _)| d == f) {
+            g.count(&format!("surface.driven.{}", f));
+        } else {
+            g.count(&format!("surface.UNDRIVEN.{}", f));
+        }
+    }
+    for (d, _) in driven.iter() {
+        if !found.contains(&d.to_string()) {
+            g.count(&format!("surface.driven_but_not_found.{}", d));
+        }
+    }
+}
+
 pub fn gen(g: &mut Gen) {
     gen_lists(g);
     let (ms, mf) = if g.thorough { (10, 7) } else { (5, 4) };
@@ -334,6 +496,8 @@ pub fn gen(g: &mut Gen) {
     }
     gen_softmax(g);
     gen_large(g);
+    gen_ad_elements(g);
+    scan_surface(g);
 }
 
 /// sizes beyond the small exhaustive sweeps (the property quantifies over all sample counts):
@@ -661,9 +825,14 @@ macro_rules! stats_for {
 
 stats_for!(stats_fp, Fp, run_fp);
 stats_for!(stats_rat, Rat, run_rat);
+stats_for!(stats_trace, Trace<Fp>, run_trace);
 
 fn softmax_fp(vals: &str, via: &str) -> String {
-    let data: Vec<Fp> = split_comma(vals).iter().map(|x| <Fp as Elem>::parse(x)).collect();
+    softmax_any::<Fp>(vals, via, Fp::new(7))
+}
+
+fn softmax_any<T: easy_ml::numeric::extra::Real + Elem + 'static>(vals: &str, via: &str, junk: T) -> String {
+    let data: Vec<T> = split_comma(vals).iter().map(|x| <T as Elem>::parse(x)).collect();
     let r = catch(|| match via {
         "into_iter" => linear_algebra::softmax(data.into_iter()),
         "cloned" => linear_algebra::softmax(data.iter().cloned()),
@@ -677,8 +846,8 @@ fn softmax_fp(vals: &str, via: &str) -> String {
             let t = Tensor::from([("x", n)], data);
             linear_algebra::softmax(t.iter())
         }
-        other if is_view_via(other) => view_iter_apply(data, other, Fp::new(7), |it| linear_algebra::softmax(it)),
-        other => linear_algebra::softmax(inexact_iter(data, other, Fp::new(7))),
+        other if is_view_via(other) => view_iter_apply(data, other, junk, |it| linear_algebra::softmax(it)),
+        other => linear_algebra::softmax(inexact_iter(data, other, junk)),
     });
     match r {
         Ok(v) => format!("data={}", show_list(&v)),
@@ -704,10 +873,191 @@ fn softmax_f64(vals: &str) -> String {
     }
 }
 
+// ---------------------------------------------------------------------------------------------
+// Record<Fp> elements (reverse mode): one fresh WengertList per operation; operands are kept as
+// their definitions and rebuilt on the tape of the operation.  An element `v~d` is a variable with
+// seed `d`, a bare `v` a constant (`Record::constant`); an answer element is value ~ directional
+// derivative  sum_k seed_k * d(out)/d(x_k).
+// ---------------------------------------------------------------------------------------------
+
+#[derive(Clone)]
+enum RecDef {
+    Matrix(usize, usize, Vec<String>),
+    Tensor(Vec<(&'static str, usize)>, Vec<String>),
+    Access(String, Vec<&'static str>),
+}
+
+#[derive(Default)]
+struct RecEnv {
+    defs: Vec<(String, RecDef)>,
+}
+
+struct Tape<'a> {
+    list: &'a WengertList<Fp>,
+    inputs: std::cell::RefCell<Vec<(Record<'a, Fp>, Fp)>>,
+}
+
+impl<'a> Tape<'a> {
+    fn elem(&self, s: &str) -> Record<'a, Fp> {
+        match s.split_once('~') {
+            Some((v, d)) => {
+                let r = Record::variable(<Fp as Elem>::parse(v), self.list);
+                self.inputs.borrow_mut().push((r.clone(), <Fp as Elem>::parse(d)));
+                r
+            }
+            None => Record::constant(<Fp as Elem>::parse(s)),
+        }
+    }
+    fn elems(&self, v: &[String]) -> Vec<Record<'a, Fp>> {
+        v.iter().map(|s| self.elem(s)).collect()
+    }
+    fn show(&self, x: &Record<'a, Fp>) -> String {
+        let mut acc = Fp(0);
+        if let Some(derivatives) = x.try_derivatives() {
+            for (input, seed) in self.inputs.borrow().iter() {
+                acc = acc + seed * &derivatives[input];
+            }
+        }
+        format!("{}~{}", x.number.0, acc.0)
+    }
+    fn show_all(&self, v: &[Record<'a, Fp>]) -> String {
+        if v.is_empty() { "-".into() } else { v.iter().map(|x| self.show(x)).collect::<Vec<_>>().join(",") }
+    }
+}
+
+impl RecEnv {
+    fn get(&self, n: &str) -> Option<&RecDef> {
+        self.defs.iter().find(|(k, _)| k == n).map(|(_, v)| v)
+    }
+
+    fn step(&mut self, toks: &[&str]) -> String {
+        let strs = |s: &str| -> Vec<String> { split_comma(s).iter().map(|x| x.to_string()).collect() };
+        let list = WengertList::new();
+        let tape = Tape { list: &list, inputs: std::cell::RefCell::new(vec![]) };
+        match toks {
+            ["m", name, r, c, vals] => {
+                let (r, c): (usize, usize) = (r.parse().unwrap(), c.parse().unwrap());
+                let v = strs(vals);
+                if r * c != v.len() || v.is_empty() {
+                    return "panic(explicit)".into();
+                }
+                self.defs.insert(0, (name.to_string(), RecDef::Matrix(r, c, v)));
+                "ok".into()
+            }
+            ["t", name, shape, vals] => {
+                let shape = parse_shape(shape);
+                let v = strs(vals);
+                if shape.len() != 2 || shape[0].1 * shape[1].1 != v.len() || v.is_empty() {
+                    return "bad-op".into();
+                }
+                self.defs.insert(0, (name.to_string(), RecDef::Tensor(shape, v)));
+                "ok".into()
+            }
+            ["v", name, src, "access", names] => {
+                let names = parse_names(names);
+                let shape = match self.get(src) {
+                    Some(RecDef::Tensor(shape, _)) => shape.clone(),
+                    _ => return "no-operand".into(),
+                };
+                let out: Vec<(&'static str, usize)> = match names.iter().map(|n| shape.iter().find(|d| d.0 == *n).copied()).collect::<Option<Vec<_>>>() {
+                    Some(o) if names.len() == 2 && names[0] != names[1] => o,
+                    _ => return "none".into(),
+                };
+                self.defs.insert(0, (name.to_string(), RecDef::Access(src.to_string(), names)));
+                format!("ok shape={}", show_shape(&out))
+            }
+            ["mean", vals, rest @ ..] => {
+                let data = tape.elems(&strs(vals));
+                let via = opt_arg("via", rest).unwrap_or("into_iter");
+                let r = catch(|| match via {
+                    "cloned" => linear_algebra::mean::<_, Record<Fp>>(data.iter().cloned()),
+                    "filter" => linear_algebra::mean::<_, Record<Fp>>(data.iter().cloned().filter(|_| true)),
+                    _ => linear_algebra::mean::<_, Record<Fp>>(data.into_iter()),
+                });
+                match r { Ok(x) => format!("value={}", tape.show(&x)), Err(k) => panic_str(k) }
+            }
+            ["variance", vals, rest @ ..] => {
+                let data = tape.elems(&strs(vals));
+                let via = opt_arg("via", rest).unwrap_or("into_iter");
+                let r = catch(|| match via {
+                    "cloned" => linear_algebra::variance::<_, Record<Fp>>(data.iter().cloned()),
+                    "filter" => linear_algebra::variance::<_, Record<Fp>>(data.iter().cloned().filter(|_| true)),
+                    _ => linear_algebra::variance::<_, Record<Fp>>(data.into_iter()),
+                });
+                match r { Ok(x) => format!("value={}", tape.show(&x)), Err(k) => panic_str(k) }
+            }
+            ["softmax", vals, rest @ ..] => {
+                let data = tape.elems(&strs(vals));
+                let via = opt_arg("via", rest).unwrap_or("into_iter");
+                let r = catch(|| match via {
+                    "cloned" => linear_algebra::softmax::<_, Record<Fp>>(data.iter().cloned()),
+                    "filter" => linear_algebra::softmax::<_, Record<Fp>>(data.iter().cloned().filter(|_| true)),
+                    _ => linear_algebra::softmax::<_, Record<Fp>>(data.into_iter()),
+                });
+                match r { Ok(v) => format!("data={}", tape.show_all(&v)), Err(k) => panic_str(k) }
+            }
+            ["f1", p, r, ..] => {
+                let (p, r) = (tape.elem(p), tape.elem(r));
+                match catch(|| linear_algebra::f1_score::<Record<Fp>>(p, r)) { Ok(x) => format!("value={}", tape.show(&x)), Err(k) => panic_str(k) }
+            }
+            [op @ ("covcol" | "covrow"), name, rest @ ..] => {
+                let via = opt_arg("via", rest).unwrap_or("fn");
+                let (r, c, v) = match self.get(name) {
+                    Some(RecDef::Matrix(r, c, v)) => (*r, *c, v.clone()),
+                    _ => return "no-operand".into(),
+                };
+                let m = Matrix::from_flat_row_major((r, c), tape.elems(&v));
+                let res = catch(|| match (*op, via) {
+                    ("covcol", "fn") => linear_algebra::covariance_column_features::<Record<Fp>>(&m),
+                    ("covcol", _) => m.covariance_column_features(),
+                    ("covrow", "fn") => linear_algebra::covariance_row_features::<Record<Fp>>(&m),
+                    (_, _) => m.covariance_row_features(),
+                });
+                match res {
+                    Ok(c) => {
+                        let (rows, cols) = c.size();
+                        format!("size={}x{} data={}", rows, cols, tape.show_all(&c.row_major_iter().collect::<Vec<_>>()))
+                    }
+                    Err(k) => panic_str(k),
+                }
+            }
+            ["covt", name, feature, rest @ ..] => {
+                let via = opt_arg("via", rest).unwrap_or("fn-rt");
+                let f = intern(feature);
+                let (shape, v, access) = match self.get(name) {
+                    Some(RecDef::Tensor(shape, v)) => (shape.clone(), v.clone(), None),
+                    Some(RecDef::Access(src, names)) => match self.get(src) {
+                        Some(RecDef::Tensor(shape, v)) => (shape.clone(), v.clone(), Some(names.clone())),
+                        _ => return "no-operand".into(),
+                    },
+                    _ => return "no-operand".into(),
+                };
+                let t = Tensor::from([shape[0], shape[1]], tape.elems(&v));
+                let res: Result<Tensor<Record<Fp>, 2>, PanicKind> = match (&access, via) {
+                    (None, "fn-t") => catch(|| linear_algebra::covariance::<Record<Fp>, _, _>(t, f)),
+                    (None, "fn-v") => catch(|| linear_algebra::covariance::<Record<Fp>, _, _>(TensorView::from(&t), f)),
+                    (None, "m-t") => catch(|| t.covariance(f)),
+                    (None, "m-v") => catch(|| TensorView::from(&t).covariance(f)),
+                    (None, _) => catch(|| linear_algebra::covariance::<Record<Fp>, _, _>(&t, f)),
+                    (Some(n), "m-av") => catch(|| TensorView::from(TensorAccess::from(&t, [n[0], n[1]])).covariance(f)),
+                    (Some(n), _) => catch(|| linear_algebra::covariance::<Record<Fp>, _, _>(TensorView::from(TensorAccess::from(&t, [n[0], n[1]])), f)),
+                };
+                match res {
+                    Ok(c) => format!("shape={} data={}", show_shape(&c.shape()), tape.show_all(&c.iter().collect::<Vec<_>>())),
+                    Err(k) => panic_str(k),
+                }
+            }
+            _ => "bad-op".into(),
+        }
+    }
+}
+
 enum Case {
     None,
     Fp(run_fp::Env),
     Rat(run_rat::Env),
+    Trace(run_trace::Env),
+    Record(RecEnv),
 }
 
 pub struct Runner {
@@ -723,6 +1073,8 @@ impl Runner {
         match toks {
             ["@", "fp"] => { self.case = Case::Fp(Default::default()); "ok".into() }
             ["@", "rat"] => { self.case = Case::Rat(Default::default()); "ok".into() }
+            ["@", "trace"] => { self.case = Case::Trace(Default::default()); "ok".into() }
+            ["@", "record"] => { self.case = Case::Record(Default::default()); "ok".into() }
             ["softmax_f64", vals, ..] => softmax_f64(vals),
             _ => match &mut self.case {
                 Case::None => "no-case".into(),
@@ -731,6 +1083,11 @@ impl Runner {
                     _ => stats_fp::step(e, toks),
                 },
                 Case::Rat(e) => stats_rat::step(e, toks),
+                Case::Trace(e) => match toks {
+                    ["softmax", vals, rest @ ..] => softmax_any::<Trace<Fp>>(vals, opt_arg("via", rest).unwrap_or("into_iter"), Trace::constant(Fp::new(7))),
+                    _ => stats_trace::step(e, toks),
+                },
+                Case::Record(e) => e.step(toks),
             },
         }
     }
